@@ -322,6 +322,72 @@ class Program(object):
                 return ("external", base[1] + "." + expr.attr)
         return None
 
+    def local_imports(self, func):
+        """Imports executed inside a function body: name -> import record."""
+        cache = self.__dict__.setdefault("_local_imports", {})
+        r = cache.get(func.qualname)
+        if r is None:
+            r = {}
+            for st in ast.walk(func.node):
+                if isinstance(st, ast.Import):
+                    for a in st.names:
+                        if a.asname:
+                            r[a.asname] = ("module", a.name)
+                        else:
+                            r[a.name.split(".")[0]] = ("module", a.name.split(".")[0])
+                elif isinstance(st, ast.ImportFrom):
+                    base = self._abs_module(func.module, st.module, st.level)
+                    for a in st.names:
+                        if a.name != "*":
+                            r[a.asname or a.name] = ("symbol", base, a.name)
+            cache[func.qualname] = r
+        return r
+
+    def resolve_in_func(self, func, expr):
+        """resolve_expr with the function's local imports taken into account."""
+        root = expr
+        while isinstance(root, ast.Attribute):
+            root = root.value
+        if isinstance(root, ast.Name):
+            li = self.local_imports(func)
+            if root.id in li:
+                imp = li[root.id]
+                if imp[0] == "module":
+                    tgt = self.modules.get(imp[1])
+                    base = ("module", tgt) if tgt is not None else ("external", imp[1])
+                else:
+                    sub = imp[1] + "." + imp[2]
+                    if sub in self.modules:
+                        base = ("module", self.modules[sub])
+                    else:
+                        base = self.module_export(imp[1], imp[2])
+                # walk the attribute chain from the resolved root
+                chain = []
+                e = expr
+                while isinstance(e, ast.Attribute):
+                    chain.append(e.attr)
+                    e = e.value
+                chain.reverse()
+                cur = base
+                for attr in chain:
+                    if cur is None:
+                        return None
+                    if cur[0] == "module":
+                        cur = self.module_export(cur[1].name, attr)
+                    elif cur[0] == "class":
+                        c = cur[1]
+                        if attr in c.nested:
+                            cur = ("class", c.nested[attr])
+                        else:
+                            f = self.lookup(c, attr)
+                            cur = ("func", f) if f is not None else None
+                    elif cur[0] == "external":
+                        cur = ("external", cur[1] + "." + attr)
+                    else:
+                        return None
+                return cur
+        return self.resolve_expr(func.module, expr, func.cls)
+
     # --------------------------------------------------------------- classes
     def _resolve_bases(self):
         for c in self.classes.values():
